@@ -744,7 +744,56 @@ NEXUS_FULL = ("#NEXUS\nbegin taxa; dimensions ntax=3; taxlabels A B D; end;\n"
               "begin trees; tree t1 = (A,(B,D)); tree t2 = ((A,B),D); end;\n")
 NEXUS_CHARS = ("#NEXUS\nbegin taxa; dimensions ntax=2; taxlabels B E; end;\n"
                "begin characters; dimensions nchar=2; format datatype=dna; matrix B AC\nE GT;\nend;\n")
+# two <otus> blocks that share labels (P, Q), neither known before: read into one namespace they resolve to one taxon each
+NEXML_TWO = """<?xml version="1.0" encoding="ISO-8859-1"?>
+<nex:nexml version="0.9" xmlns:nex="http://www.nexml.org/2009" xmlns="http://www.nexml.org/2009" xmlns:xsi="http://www.w3.org/2001/XMLSchema-instance">
+  <otus id="tax1" label="first">
+    <otu id="t1" label="B"/>
+    <otu id="t2" label="P"/>
+    <otu id="t3" label="Q"/>
+  </otus>
+  <otus id="tax2" label="second">
+    <otu id="u1" label="Q"/>
+    <otu id="u2" label="P"/>
+    <otu id="u3" label="R"/>
+  </otus>
+  <trees id="trees1" otus="tax1">
+    <tree id="tree1" xsi:type="nex:FloatTree">
+      <node id="n1" root="true"/>
+      <node id="n2" otu="t1"/>
+      <node id="n3"/>
+      <node id="n4" otu="t2"/>
+      <node id="n5" otu="t3"/>
+      <edge id="e1" source="n1" target="n2" length="1.0"/>
+      <edge id="e2" source="n1" target="n3" length="1.0"/>
+      <edge id="e3" source="n3" target="n4" length="1.0"/>
+      <edge id="e4" source="n3" target="n5" length="1.0"/>
+    </tree>
+  </trees>
+  <trees id="trees2" otus="tax2">
+    <tree id="tree2" xsi:type="nex:FloatTree">
+      <node id="m1" root="true"/>
+      <node id="m2" otu="u1"/>
+      <node id="m3"/>
+      <node id="m4" otu="u2"/>
+      <node id="m5" otu="u3"/>
+      <edge id="f1" source="m1" target="m2" length="1.0"/>
+      <edge id="f2" source="m1" target="m3" length="1.0"/>
+      <edge id="f3" source="m3" target="m4" length="1.0"/>
+      <edge id="f4" source="m3" target="m5" length="1.0"/>
+    </tree>
+  </trees>
+</nex:nexml>
+"""
+
+# the same for NEXUS: two TAXA blocks sharing labels, a TREES block linked to each
+NEXUS_TWO = ("#NEXUS\nbegin taxa; title first; dimensions ntax=3; taxlabels B P Q; end;\n"
+             "begin taxa; title second; dimensions ntax=3; taxlabels Q P R; end;\n"
+             "begin trees; title t1; link taxa = first; tree t = (B,(P,Q)); end;\n"
+             "begin trees; title t2; link taxa = second; tree t = (Q,(P,R)); end;\n")
 DS_SOURCES = {
+    "nexml-two-otus": (NEXML_TWO, "nexml", ["B", "P", "Q", "R"]),
+    "nexus-two-taxa": (NEXUS_TWO, "nexus", ["B", "P", "Q", "R"]),
     "nexus-full": (NEXUS_FULL, "nexus", ["A", "B", "D"]),
     "nexus-chars": (NEXUS_CHARS, "nexus", ["B", "E"]),
     "newick-overlap": ("(A,(B,F));((A,F),B);", "newick", ["A", "B", "F"]),
@@ -757,7 +806,7 @@ def _ds_components(ds):
     return list(ds.tree_lists) + list(ds.char_matrices)
 
 
-def _ds_audit(ds, op, fails, strict_attached):
+def _ds_audit(ds, op, fails, strict_attached, registry_stale=False):
     att = ds.attached_taxon_namespace
     known = list(ds.taxon_namespaces)
     pairs = []
@@ -766,7 +815,7 @@ def _ds_audit(ds, op, fails, strict_attached):
         errs = N.treelist_closure_errors(c) if isinstance(c, TreeList) else N.matrix_closure_errors(c)
         for e in errs:
             fails.append(("dataset.%s.closure" % op, e))
-        if not any(ns is k for k in known):
+        if not registry_stale and not any(ns is k for k in known):
             fails.append(("dataset.%s.closure" % op, "a component's namespace is not among the data set's taxon_namespaces"))
         if att is not None and strict_attached and ns is not att:
             fails.append(("dataset.%s.attached-closure" % op, "a component refers to another namespace than the attached one"))
@@ -789,6 +838,7 @@ def _history_ds(case):
     ds = DataSet()
     fails = []
     strict = True
+    stale = False
     expect = []  # labels every read promised, per read: all must be present somewhere afterwards
     for j, op in enumerate(case["ops"]):
         name = op[0]
@@ -866,6 +916,15 @@ def _history_ds(case):
                 else:
                     ds.unify_taxon_namespaces(taxon_namespace=_mk_ns(["B", "D"], cs)[0])
                 strict = True
+                stale = False
+            elif name == "component-migrate":
+                # the caller moves one component to a namespace of its own: the data set is not told (its registry of
+                # namespaces is the caller's to refresh), a later unification has to bring the component back
+                comps = list(ds.tree_lists) if op[1] == "tl" else list(ds.char_matrices)
+                if comps:
+                    comps[0].migrate_taxon_namespace(_mk_ns(["B", "Z"], cs)[0])
+                    strict = False
+                    stale = True
             elif name == "tl-append":
                 tls = list(ds.tree_lists)
                 if tls:
@@ -882,7 +941,7 @@ def _history_ds(case):
                 raise
             fails.append(("dataset.%s.raises" % name, "%s: %s (at %s)" % (type(ex).__name__, str(ex)[:160], where)))
         if not fails:
-            _ds_audit(ds, name, fails, strict)
+            _ds_audit(ds, name, fails, strict, registry_stale=stale)
             # nothing dropped: every label of every source read so far is still carried by a member
             have = set()
             for c in _ds_components(ds):
@@ -1045,7 +1104,8 @@ def ds_alphabet():
         ops.append(["read", s])
     ops += [["read", "newick-overlap", "kw-attached"], ["read", "nexus-full", "kw-other"],
             ["new_tree_list", "own"], ["new_tree_list", "other"], ["new_char_matrix", "own"], ["new_char_matrix", "other"],
-            ["add-own", "tl"], ["add-own", "cm"], ["unify", "new"], ["unify", "given"], ["tl-append"]]
+            ["add-own", "tl"], ["add-own", "cm"], ["unify", "new"], ["unify", "given"], ["tl-append"],
+            ["component-migrate", "tl"], ["component-migrate", "cm"]]
     return ops
 
 
